@@ -186,6 +186,25 @@ CHECKS["C14"] = dict(
     technique="typestate exploration + bounded-write dataflow with record invariants + enum/table agreement + call-graph reachability",
     design="3/C14")
 
+
+CHECKS["C08"] = dict(
+    text="Decides structural necessary conditions on all paths, which no fault-injection run enumerates: (R1) the sub-socket typestate of the xcm_tp.h contract "
+         "(create/init/open/close-or-cleanup/destroy; a failed connect/server/accept leaves the socket cleaned up; nothing live is destroyed; nothing cleaned is "
+         "closed again) on every path of every transport's init/connect/server/accept/close/cleanup op and of the xcm_*_a entry points, same-unit helpers inlined "
+         "with parameter bindings, dead failure ladders pruned by a never-fails lemma derived on every run with protocol-resolved init dispatch; (R2) every "
+         "descriptor obtained from socket/accept4/eventfd/timerfd_create/epoll_create1 (and wrappers) is on every path closed, stored in an owning field, "
+         "returned or handed to a function that takes it over, and a descriptor stored in the socket during a failing server/accept is closed before the "
+         "failure is reported; (R3) every descriptor-owning field is closed by a function reachable from xcm_close and xcm_cleanup; (R4) a descriptor handed out "
+         "of a record resets the source slot; (R6) context-sensitive reachability from the cleanup ops with the owner flag propagated reaches no epoll_ctl, "
+         "unlink, shutdown or write; (R7) the result of a resource-creating call never decides an assertion and a possibly failed descriptor is never handed "
+         "unchecked to a function that asserts it valid (known findings K2: two sites); (R8) the UXF path is recorded only after a successful bind and unlinked "
+         "by the owner's close; (R9) every object a function obtains from a creator in a 48-entry creator/releaser table is released, stored, returned or handed "
+         "over on every path; (R10) no data-path op is reachable on a socket between init and connect/server/accept (known finding K6). Not decided: equality of "
+         "the heap and descriptor table before/after (R3/R9 are coverage and per-function ownership, not a leak proof); behaviour of a forked child at run time.",
+    note=TRUSTED + " The kernel drops a descriptor's epoll registrations when it is closed; registration tables (xpoll) keep descriptor numbers without owning them.",
+    technique="typestate abstract interpretation with inlining and parameter binding + ownership dataflow + context-sensitive call-graph reachability",
+    design="3/C08")
+
 NOT_APPLICABLE = {}
 
 
